@@ -37,10 +37,18 @@ Definition setPreemptable (w : world) (q : queue) : ores :=
   if IsEmpty p then None else p.
 
 (* ---- getChildQueuesPreemptableResource ---- *)
-Definition child_excess (c : queue) : option res :=
+(* [pinned]: the code before the commit "fix: quota preemption ignored the resource types of a child queue that have
+   no guaranteed quantity" took only the types of the guaranteed resource when one is set *)
+Definition child_excessF (pinned : bool) (c : queue) : option res :=
   if IsEmpty (q_alloc c) || StrictlyGreaterThanOrEqualsOnlyExisting (q_guar c) (q_alloc c) then None else
-  let used := if negb (IsEmpty (q_guar c)) then SubOnlyExisting (q_guar c) (q_alloc c) else q_alloc c in
-  Some (map (fun kv => (fst kv, if snd kv <? 0 then wrap64 (snd kv * -1) else snd kv)) (oget used)).
+  let used :=
+    if negb (IsEmpty (q_guar c)) then
+      let base := oget (SubOnlyExisting (q_guar c) (q_alloc c)) in
+      if pinned then base
+      else fold_left (fun out kv => if has (oget (q_guar c)) (fst kv) then out else set (fst kv) (snd kv) out) (oget (q_alloc c)) base
+    else oget (q_alloc c) in
+  Some (map (fun kv => (fst kv, if snd kv <? 0 then wrap64 (snd kv * -1) else snd kv)) used).
+Definition child_excess := child_excessF false.
 
 (* math.Floor of a finite float as an integer, then int(...) *)
 Definition f_floor_int (x : f64) : Z :=
@@ -86,17 +94,19 @@ Definition dist_step (rec : queue -> ores -> qres (list (N * res))) (total pp : 
            | QVal l' => QVal (l ++ l')
            end
   end.
-Definition excess_children (w : world) (q : queue) : list (queue * res) :=
-  flat_map (fun c => match child_excess c with Some p => [(c, p)] | None => [] end) (children w q).
+Definition excess_childrenF (pinned : bool) (w : world) (q : queue) : list (queue * res) :=
+  flat_map (fun c => match child_excessF pinned c with Some p => [(c, p)] | None => [] end) (children w q).
+Definition excess_children := excess_childrenF false.
 
 (* result: the leaf queues with their share of the preemptable resource.
-   [pinned] selects the code before the commit "fix: quota preemption of a parent queue panicked when its usage
-   above the max was already being preempted" (a nil parentPreemptableResource was dereferenced) *)
+   [pinned] selects the code before the commits "fix: quota preemption of a parent queue panicked when its usage
+   above the max was already being preempted" (a nil parentPreemptableResource was dereferenced) and "fix: quota
+   preemption ignored the resource types of a child queue that have no guaranteed quantity" *)
 Fixpoint distributeF (pinned : bool) (fuel : nat) (w : world) (q : queue) (parentP : ores) : qres (list (N * res)) :=
   match fuel with
   | O => QVal []
   | S f =>
-      match excess_children w q with
+      match excess_childrenF pinned w q with
       | [] => QVal []
       | cs =>
           match parentP with
